@@ -134,7 +134,7 @@ def usesDefectF03 (notifyOn : Bool) : Op → Bool
   | _ => false
 
 def Admissible (cfg : Cfg) (f : Forest) (notifyOn : Bool) (op : Op) : Bool :=
-  !divergent f op && refsDistinct op && !insertsOwnChild f op &&
+  !divergent f op && refsDistinct op && (cfg.insertCopiesOwn || !insertsOwnChild f op) &&
     (cfg.reindexOnReorder || !usesDefectF02 op) &&
     (cfg.reindexOnMutate || !usesDefectF03 notifyOn op)
 
